@@ -70,6 +70,7 @@ type c07Write struct {
 	Record int    `json:"record_index"`
 	Limit  int    `json:"writer_accepts_bytes"`
 	Once   bool   `json:"fails_one_call_only,omitempty"`
+	Rich   bool   `json:"destination_also_offers_WriteByte_WriteString_ReadFrom,omitempty"`
 }
 
 func corpusBy(format, key string) []byte {
@@ -165,18 +166,18 @@ func checkC07Read(c c07Read) core.Outcome {
 }
 
 // writeRecords returns, per format, records whose Write passes through every call site.
-func writeRecords(format string) []func(w *envio.LimitWriter) error {
+func writeRecords(format string) []func(w io.Writer) error {
 	switch format {
 	case "fasta":
 		recs := []*fasta.Fasta{{Name: []byte("n"), Sequence: nil}, {Name: nil, Sequence: []byte("ACGT")}, {Name: []byte("long"), Sequence: longSeq(170)}}
-		return wrap(len(recs), func(i int, w *envio.LimitWriter) error { return recs[i].Write(w) })
+		return wrap(len(recs), func(i int, w io.Writer) error { return recs[i].Write(w) })
 	case "fastq":
 		recs := []*fastq.Fastq{{Name: []byte("r"), Sequence: []byte("ACG"), Quals: []byte("III")}, {}}
-		return wrap(len(recs), func(i int, w *envio.LimitWriter) error { return recs[i].Write(w) })
+		return wrap(len(recs), func(i int, w io.Writer) error { return recs[i].Write(w) })
 	case "sam":
 		recs := []*sam.SAM{{Qname: "q", Rname: "r", Cigar: "1M", Rnext: "*", Seq: "A", Qual: "I"},
 			{Qname: "q2", Flag: 99, Rname: "r", Pos: 5, Cigar: "1M", Rnext: "=", Seq: "A", Qual: "I", Tags: map[string]any{"NM": 1, "XA": "z", "ZF": 1.5}}}
-		return wrap(len(recs), func(i int, w *envio.LimitWriter) error { return recs[i].Write(w) })
+		return wrap(len(recs), func(i int, w io.Writer) error { return recs[i].Write(w) })
 	case "bed":
 		var recs []*bed.BED
 		for n := 3; n <= 12; n++ {
@@ -186,19 +187,19 @@ func writeRecords(format string) []func(w *envio.LimitWriter) error {
 			}
 			recs = append(recs, b)
 		}
-		return wrap(len(recs), func(i int, w *envio.LimitWriter) error { return recs[i].Write(w) })
+		return wrap(len(recs), func(i int, w io.Writer) error { return recs[i].Write(w) })
 	case "newick":
 		recs := []*newick.Node{{}, {Name: "a b", Distance: 1.5, Children: []*newick.Node{{Name: "x"}, {Name: "'", Distance: 2}}}}
-		return wrap(len(recs), func(i int, w *envio.LimitWriter) error { return recs[i].Write(w) })
+		return wrap(len(recs), func(i int, w io.Writer) error { return recs[i].Write(w) })
 	}
 	panic("no write records for " + format)
 }
 
-func wrap(n int, f func(i int, w *envio.LimitWriter) error) []func(w *envio.LimitWriter) error {
-	out := make([]func(w *envio.LimitWriter) error, n)
+func wrap(n int, f func(i int, w io.Writer) error) []func(w io.Writer) error {
+	out := make([]func(w io.Writer) error, n)
 	for i := 0; i < n; i++ {
 		i := i
-		out[i] = func(w *envio.LimitWriter) error { return f(i, w) }
+		out[i] = func(w io.Writer) error { return f(i, w) }
 	}
 	return out
 }
@@ -252,21 +253,23 @@ func runC07(r *core.Run) {
 			}
 		}, checkC07Read)
 
-	r.Bound("write-side", "per format records that together pass through every Fprintf/Write call site (FASTA 0/1/3 sequence lines, FASTQ, SAM 0/3 tags, BED every N and 3 blocks, Newick) x every k in 0..len(out)+1: a writer that accepts k bytes in total and then fails forever; and for every k < len(out) a writer that fails only the one call crossing k")
+	r.Bound("write-side", "per format records that together pass through every Fprintf/Write call site (FASTA 0/1/3 sequence lines, FASTQ, SAM 0/3 tags, BED every N and 3 blocks, Newick) x every k in 0..len(out)+1: a writer that accepts k bytes in total and then fails forever; and for every k < len(out) a writer that fails only the one call crossing k; each with a plain io.Writer and with a destination that also offers WriteByte, WriteString and ReadFrom (what bytes.Buffer, bufio.Writer, os.File offer) on the same byte budget")
 	core.Clause(r, "write-faults", core.Opts{Rule: "every failure offset of the destination writer; Write returns non-nil iff the writer failed (k < len(out)), nil when everything was accepted; in the fail-one-call mode a nil result is accepted only if the destination received the complete record; non-trivial = 0 < k < len(out)"},
 		func(emit func(c07Write) bool) {
 			for _, fn := range []string{"fasta", "fastq", "sam", "bed", "newick"} {
 				for i, w := range writeRecords(fn) {
 					full := &envio.LimitWriter{Limit: 1 << 30}
 					w(full)
-					for k := 0; k <= len(full.Got)+1; k++ {
-						if !emit(c07Write{fn, i, k, false}) {
-							return
+					for _, rich := range []bool{false, true} {
+						for k := 0; k <= len(full.Got)+1; k++ {
+							if !emit(c07Write{fn, i, k, false, rich}) {
+								return
+							}
 						}
-					}
-					for k := 0; k < len(full.Got); k++ {
-						if !emit(c07Write{fn, i, k, true}) {
-							return
+						for k := 0; k < len(full.Got); k++ {
+							if !emit(c07Write{fn, i, k, true, rich}) {
+								return
+							}
 						}
 					}
 				}
@@ -279,8 +282,14 @@ func runC07(r *core.Run) {
 				return core.Failf("%s record %d: Write to a writer that accepts everything returned %v", c.Format, c.Record, err)
 			}
 			lw := &envio.LimitWriter{Limit: c.Limit, Once: c.Once}
+			var dest io.Writer = lw
+			kind := ""
+			if c.Rich {
+				rw := &envio.RichLimitWriter{LimitWriter: envio.LimitWriter{Limit: c.Limit, Once: c.Once}}
+				lw, dest, kind = &rw.LimitWriter, rw, " (destination also offers WriteByte/WriteString/ReadFrom)"
+			}
 			var err error
-			if p := catch(func() { err = w(lw) }); p != "" {
+			if p := catch(func() { err = w(dest) }); p != "" {
 				return core.Failf("%s record %d: Write panicked when the writer failed after %d bytes: %s", c.Format, c.Record, c.Limit, p)
 			}
 			if c.Once {
@@ -292,7 +301,7 @@ func runC07(r *core.Run) {
 				return core.Outcome{Class: fmt.Sprint("transient failed=", err != nil), Nontrivial: c.Limit > 0}
 			}
 			if c.Limit < len(full.Got) && err == nil {
-				return core.Failf("%s record %d (output %q): the writer failed after %d of %d bytes but Write returned nil", c.Format, c.Record, trunc(string(full.Got), 80), c.Limit, len(full.Got))
+				return core.Failf("%s record %d (output %q): the writer%s failed after %d of %d bytes but Write returned nil", c.Format, c.Record, trunc(string(full.Got), 80), kind, c.Limit, len(full.Got))
 			}
 			if c.Limit >= len(full.Got) && err != nil {
 				return core.Failf("%s record %d: everything was accepted but Write returned %v", c.Format, c.Record, err)
